@@ -49,3 +49,4 @@ pub mod queries;
 pub mod ws;
 pub mod sema;
 pub mod lspmodel;
+pub mod lspclient;
